@@ -50,9 +50,16 @@ func itReady(it experimental.StackIterator, callee api.FunctionDefinition) bool 
 	return ok && si != nil && si.fn != nil && !si.started && si.pc == 0
 }
 
+// hostCallOK: the validated shape of a host call - the operand stack holds the callee's parameters.
+func hostCallOK(ce *callEngine, f *function) bool {
+	t := f.funcType
+	return t != nil && t.ParamNumInUint64 >= 0 && t.ParamNumInUint64 < 1<<30 && t.ResultNumInUint64 >= 0 && t.ResultNumInUint64 < 1<<30 &&
+		len(ce.stack) >= t.ParamNumInUint64 && len(ce.stack) < 1<<40
+}
+
 func isSnapshot(v interface{}) bool { _, ok := v.(*snapshot); return ok }
 
-//@ prop C06 C20
+//@ prop C06 C20 C08
 
 // Embedder / helper interfaces (assumed): they do not touch the call engine.
 //@ iface (l experimental.FunctionListener) Abort(ctx context.Context, mod api.Module, def api.FunctionDefinition, err error)
@@ -124,21 +131,31 @@ func isSnapshot(v interface{}) bool { _, ok := v.(*snapshot); return ok }
 //@   ensures[seen] befores() >= old(befores()) + 1
 //@   nosafety keep-pre
 
+// C08: a host function is handed a window of the operand stack that starts at the guest's parameters
+// and is large enough for the results; it gets the values themselves, not copies to be converted.
 //@ func (ce *callEngine) callGoFunc(ctx context.Context, m *wasm.ModuleInstance, f *function, stack []uint64)
-//@   requires f != nil && f.parent != nil && evOK()
+//@   requires f != nil && f.parent != nil && evOK() && f.funcType != nil
+//@   requires[window-is-the-stack-top] len(stack) >= f.funcType.ParamNumInUint64 && len(stack) >= f.funcType.ResultNumInUint64 && verif_slice_at(stack, ce.stack, len(ce.stack)-len(stack))
 //@   ensures[bracketed] befores()-afters() == old(befores()-afters())
 //@   ensures[seen] old(f.parent.listener != nil) ==> befores() >= old(befores()) + 1
+//@   ensures[engine-stack-shape-kept] len(ce.stack) == old(len(ce.stack)) && len(ce.frames) == old(len(ce.frames))
+//@   callees-preserve ce.stack, ce.frames
 //@   nosafety keep-pre
 
 //@ func (ce *callEngine) callGoFuncWithStack(ctx context.Context, m *wasm.ModuleInstance, f *function)
 //@   requires f != nil && f.parent != nil && evOK()
+//@   requires hostCallOK(ce, f)
 //@   ensures[bracketed] befores()-afters() == old(befores()-afters())
 //@   ensures[seen] old(f.parent.listener != nil) ==> befores() >= old(befores()) + 1
+//@   ensures[results-replace-params] len(ce.stack) == old(len(ce.stack)) - old(f.funcType.ParamNumInUint64) + old(f.funcType.ResultNumInUint64)
+//@   callees-preserve ce.stack, ce.frames
 //@   nosafety keep-pre
+//@   loop 0 (i int, growLen int)
+//@     invariant 0 <= i && i <= growLen && len(ce.stack) == old[int](len(ce.stack)) + i
 
 // Every call made through callFunction - guest or host callee - is seen by the callee's listener.
 //@ func (ce *callEngine) callFunction(ctx context.Context, m *wasm.ModuleInstance, f *function)
-//@   requires f != nil && f.parent != nil && evOK()
+//@   requires f != nil && f.parent != nil && evOK() && (f.parent.hostFn != nil ==> hostCallOK(ce, f))
 //@   ensures[bracketed] befores()-afters() == old(befores()-afters())
 //@   ensures[seen] old(f.parent.listener != nil) ==> befores() >= old(befores()) + 1
 //@   nosafety keep-pre
@@ -167,3 +184,32 @@ func meOK(f *function) bool {
 	me, ok := f.moduleInstance.Engine.(*moduleEngine)
 	return ok && me != nil
 }
+
+// C08: parameters of an exported function enter the operand stack in order, results leave it in order.
+//@ prop C08
+//@ func (ce *callEngine) pushValues(v []uint64)
+//@   requires len(ce.stack) < 1<<40 && len(v) < 1<<40 && !verif_same_array(v, ce.stack)
+//@   ensures[appended-in-order] len(ce.stack) == old(len(ce.stack)) + len(v) && forall i int :: 0 <= i && i < len(v) ==> ce.stack[old(len(ce.stack))+i] == old[uint64](v[i])
+//@   ensures[below-kept] forall i int :: 0 <= i && i < old(len(ce.stack)) ==> ce.stack[i] == old[uint64](ce.stack[i])
+
+//@ func (ce *callEngine) popValues(v []uint64)
+//@   requires len(v) <= len(ce.stack) && !verif_same_array(v, ce.stack)
+//@   ensures[popped-in-order] len(ce.stack) == old(len(ce.stack)) - len(v) && forall i int :: 0 <= i && i < len(v) ==> v[i] == old[uint64](ce.stack[len(ce.stack)-len(v)+i])
+//@   ensures[below-kept] forall i int :: 0 <= i && i < len(ce.stack) ==> ce.stack[i] == old[uint64](ce.stack[i])
+//@   modifies ce.stack, elems(v)
+
+// C04: an indirect call reaches a function only through a populated table slot and only if its type
+// id equals the one the call site expects; anything else traps.
+//@ prop C04
+// (unsafe pointer cast, assumed: yields the function object the table entry points to)
+//@ func functionFromUintptr(ptr uintptr) *function
+//@   trusted
+//@   ensures r0 != nil
+//@   modifies nothing
+
+//@ func (ce *callEngine) functionForOffset(table *wasm.TableInstance, offset uint64, expectedTypeID wasm.FunctionTypeID) *function
+//@   requires table != nil
+//@   ensures[type-checked] r0 != nil && r0.typeID == expectedTypeID
+//@   ensures[from-a-populated-slot] offset < uint64(len(table.References)) && table.References[offset] != 0
+//@   may-panic true
+//@   modifies nothing
